@@ -39,6 +39,12 @@ def wrapping(F, ctx):
 
 
 def run(ctx):
+    _run(ctx)
+    ctx.delegate("C07", ["C07.progress"], "C06.resync",
+                 "after a failed typed read the index-less iteration does not go on decoding from an unsynchronised position "
+                 "(which could yield a value of a type the file does not hold)", floor=4)
+
+def _run(ctx):
     F = ctx.facts("default")
     ctx.rule("C06.variant", "Shape::shapetype maps variant V to ShapeType::V for each of the 14 variants", floor=14)
     ctx.rule("C06.concrete", "<T as HasShapeType>::shapetype() is the ShapeType named like the Shape variant wrapping T "
